@@ -87,6 +87,14 @@ def cases(tier, seed):
                 out.append(dict(id='agent-asym-%d-%s-%s' % (contacts, who, stop_on_close), kind='agent', contacts=contacts, who=who, pre_steps=60, mid_steps=25,
                                 bundles=1, asym=1 if who == 'A' else contacts, seed=seed + contacts, policy='fair' if stop_on_close else 'rr', stagger=0,
                                 stop_on_close=stop_on_close))
+    # a contact that is already terminating when shutdown() comes, and the immediate stop() of an agent with several contacts
+    for who in ('A', 'B'):
+        for steps in (1, 4):
+            out.append(dict(id='agent-preterm-%s-%d' % (who, steps), kind='agent', contacts=2, who=who, pre_steps=60, mid_steps=25, bundles=1, asym=1,
+                            seed=seed + steps, policy='fair', stagger=0, pre_terminate=steps))
+        for contacts in (2, 3, 4):
+            out.append(dict(id='agent-stop-%s-%d' % (who, contacts), kind='agent', contacts=contacts, who=who, pre_steps=60, mid_steps=10, bundles=1,
+                            seed=seed + contacts, policy='fair', stagger=0, stop=True))
     return out
 
 
@@ -540,7 +548,7 @@ def run_case(case):
 
     if case['kind'] == 'agent':
         from vf.props import c18
-        params = {k: case[k] for k in ('contacts', 'who', 'pre_steps', 'mid_steps', 'bundles', 'seed', 'policy', 'stagger', 'asym', 'stop_on_close') if k in case}
+        params = {k: case[k] for k in ('contacts', 'who', 'pre_steps', 'mid_steps', 'bundles', 'seed', 'policy', 'stagger', 'asym', 'stop_on_close', 'pre_terminate', 'stop') if k in case}
         obs18 = dict(agent_scenarios=0, runs=0, signals_checked=0, returns_checked=0)
         problems = c18.agent_run(params, obs18)
         evaluations += 1
